@@ -260,8 +260,40 @@ def programmatic_entry_points(tmp, src, helpers, reference_mir):
                     viol.append(("entry-points", f"compile_{via} after a program that failed inside the compiler ({tag}): MIR differs from the command "
                                                  f"line's MIR of the same text: {dd}"))
                     break
+        # ... and, with the compile timers enabled, after programs that fail while they are loaded (the timers are one more
+        # piece of state an aborted compilation may leave behind; the MIR of the next program must not know)
+        for tag, bad_src in FAIL_AT_IMPORT.items():
+            bad_path = os.path.join(d, f"unloadable_{tag.replace(' ', '_')}.py")
+            with open(bad_path, "w", encoding="utf-8") as f:
+                f.write(bad_src)
+            p = subprocess.run([sys.executable, "-m", "nv.real.fresh_hist", via, bad_path, path, bad_path, path], cwd=tmp,
+                               env=dict(env, NV_TIMERS="1"), capture_output=True, text=True, timeout=300)
+            try:
+                outs = _json.loads(p.stdout)
+            except ValueError:
+                raise core.Infra(f"fresh_hist failed: {(p.stderr or p.stdout)[-300:]}")
+            for k in (1, 3):
+                o = outs[k]
+                n += 1
+                if "mir" not in o:
+                    viol.append(("entry-points", f"compile_{via} with the timers enabled, after a program that {tag}: {o.get('err')}: {o.get('msg')}; "
+                                                 f"the command line compiles the same text"))
+                    break
+                dd = cm.first_diff(ref, normalize(strip_locations(o["mir"])))
+                if dd:
+                    viol.append(("entry-points", f"compile_{via} with the timers enabled, after a program that {tag}: MIR differs from the command "
+                                                 f"line's MIR of the same text: {dd}"))
+                    break
     return viol, n
 
+
+FAIL_AT_IMPORT = {
+    "raises at import": "from nada_dsl import *\nraise RuntimeError('boom')\n",
+    "imports a missing module": "from nada_dsl import *\nimport nv_no_such_helper_module\n\n\ndef nada_main():\n    return []\n",
+    "has a syntax error": "from nada_dsl import *\ndef nada_main(:\n",
+    "exits at import": "from nada_dsl import *\nraise SystemExit(3)\n",
+    "raises inside nada_main": "from nada_dsl import *\n\n\ndef nada_main():\n    p = Party(name='P')\n    raise RuntimeError('inside')\n",
+}
 
 FAIL_INSIDE = {
     "non-output": "from nada_dsl import *\n\ndef nada_main():\n    p = Party(name=\"P\")\n    q = Party(name=\"Leftover\")\n    a = SecretInteger(Input(name=\"a\", party=q))\n"
